@@ -48,10 +48,11 @@ EXC_KINDS: List[str] = ['value', 'key', 'type', 'assert', 'runtime', 'custom', '
 def logical_call(ch: Choices, tok: str, allow_fail: bool = True, allow_notification: bool = True,
                  positional_only: bool = False, zero_ok: bool = False, extra_codes: Tuple[int, ...] = (),
                  extra_messages: Tuple[str, ...] = (), exotic: bool = False, allow_single: bool = False,
-                 ctx_methods: bool = False) -> LogicalCall:
+                 ctx_methods: bool = False, reentrant: bool = False) -> LogicalCall:
     weights = [4, 2, 1, 2, 3 if allow_fail else 0, 2 if allow_fail else 0, 1, 2, 2, 1, 2,
                1 if allow_fail else 0, 1 if exotic else 0, 1 if allow_single else 0, 1, 1 if ctx_methods else 0,
-               1 if ctx_methods else 0, 1 if ctx_methods else 0, 1 if ctx_methods else 0, 1, 1]
+               1 if ctx_methods else 0, 1 if ctx_methods else 0, 1 if ctx_methods else 0, 1, 1,
+               2 if reentrant else 0]
     kind = ch.weighted(weights, 'call.kind')
     named = (not positional_only) and ch.flag(1, 3, 'call.named')
     notification = allow_notification and ch.flag(1, 4, 'call.notification')
@@ -94,6 +95,8 @@ def logical_call(ch: Choices, tok: str, allow_fail: bool = True, allow_notificat
     elif kind == 13:
         method, argmap = 'single', [('value', ch.choice([{'a': 1}, {'value': 2}, [1], 'v', 0, {}], 'arg.single'))]
         tok = None  # type: ignore[assignment]
+    elif kind == 21:
+        method, argmap = 'nest', [('tok', tok)]
     elif kind == 20:
         method, argmap = 'vstatic', [('tok', tok)]
     elif kind == 19:
